@@ -19,6 +19,10 @@ claimed = {
    text="Deductive proof that the real Evaluate of sphere, circle, (rounded) box 2D/3D, line, (rounded) cylinder and capsule equals the independent closed-form Euclidean signed distance at every point, and that union/intersection/difference (plain and with the polynomial blend), cut, offset, shell, elongate, plain extrusion, full revolution and uniform scale preserve the two-point 1-Lipschitz property of abstract operands. EXACT => LIP for primitives, the cone, polygons, rotate-copy/union, arrays, rounded extrusion and partial revolution are not yet under contract (not_decided).",
    design_ref="8.3",
    technique="contract-based deductive verification: per-path VCs against independent spec functions; two-point Lipschitz contracts with quantified operand assumptions instantiated at evaluation points; lemma library (Lagrange identity, sup-norm Lipschitz of the polynomial blend) proved in the same run"),
+ "C04": dict(
+   text="Reduced scope, proved per function for all inputs: a segment record built by newLineInfo describes its segment (unit direction, length, end point = start + length*direction) for non-degenerate segments and newLineInfo is the only writer of such records; lineInfo.minDistance2 is exactly the squared distance to the nearest point of the segment (equal to the clamped-projection point, not larger than the distance to any point of the segment); lineInfo.winding is exactly the half-open crossing rule of the property (+1 iff a.y <= p.y < b.y and p strictly left, -1 iff b.y <= p.y < a.y and p strictly right, else 0) and that 'strictly left' is 'the edge meets the horizontal through p to the right of p'; the brute-force reference returns sqrt of the minimum of those distances (recursive spec function, loop invariant) with a negative sign exactly when the sum of the crossing increments is non-zero; the quadtree side by recursion-by-contract: minBoxDist2 is the squared distance to the node's square and a lower bound for every point of it, searchOrder is a permutation of the four children starting with the quadrant of p, minLeafDist2 is the minimum over the leaf (lower bound for every segment and attained by one), minDist2 prunes only boxes no nearer than the bound so far, measures a leaf, and otherwise searches each child exactly once in search order threading the best distance, winding sums the crossing increments of a leaf and otherwise descends exactly into the children of p's row that are not left of p; lemmas: a piece inside a box of another row, or entirely left of p, contributes no crossing, a box no nearer than the bound holds no nearer segment, the four quadrants tile the square about its centre; construction: lineIntersect keeps only pieces with both end points in the box, keeps direction, gives a horizontal segment on the top edge / vertical segment on the right edge to the neighbouring box and keeps a contained segment whole; lineFilter, convertLines, qtBuild (nil iff no segments, leaf iff one segment or level 3 with one record per segment, else four children over the four quadrants each given the segments clipped to its quadrant), Mesh2D (bounding box holds every end point, one tree over a square containing it), VertexToLine (consecutive pairs, closing edge) and Polygon2D. NOT decided: that the clipped pieces of a segment partition it exactly (lineIntersect snaps with a 1e-9 tolerance, so this holds only approximately), hence the whole-tree equality fast == slow, the induction over tree depth (prose), and the Jordan-curve step from winding number to 'enclosed'.",
+   design_ref="8.4",
+   technique="contract-based deductive verification: per-path VCs from go/ssa, recursion by contract with calls recorded in a ghost log, loop invariants with existential witnesses and recursively defined spec functions (unfolded on demand), object regions for pointer-linked data with a record invariant justified by a sole-writer (frame) obligation, stand-alone geometric lemmas; SMT (QF_NRA)"),
  "C05": dict(
    text="Proof obligations over the real tables and the real cell code: (a) edge-table bits are exactly the sign changes and triangle rows name exactly the crossing edges, (b) interior directed edges cancel within every one of the 256 configurations, (c) for all 3 x 4096 face-adjacent configuration pairs the net face segments of one cell are the reverses of the neighbour's, (d) face segments have the solid corner on the same side as the single-corner anchor whose normal points to the void; mcToTriangles is shown by symbolic execution (corner coordinates and values symbolic, all 256 sign patterns x all degeneracy outcomes) to return exactly the table's triangles with the table's winding minus the ones its degeneracy test rejects; mcInterpolate lies on the lattice edge, is the linear zero crossing, and is symmetric in its end points (so neighbouring cells compute the identical vertex); Degenerate(0) holds iff two vertices coincide. The gluing argument from these lemmas to 'closed oriented surface' is prose (A8(ii)); caller corner/value pairing and padding are not yet under contract.",
    design_ref="8.5",
